@@ -3,7 +3,7 @@ CONSTANTS
   AlphaA = {"CF", "EN", "GA"}
   AlphaB = {"CF", "CB", "AL", "GA"}
   AlphaC = {"GT", "AL"}
-  AlphaL = {"LC", "LG", "CF", "GA"}
+  AlphaL = {"LC", "LG", "CF", "GA", "EN", "AL", "CB"}
   SortsBeforeExport = TRUE
   TwoRuns = FALSE
-INVARIANTS Emit
+INVARIANTS AnyLocIsReference Emit
